@@ -1,0 +1,16 @@
+//go:build verif
+
+// Contracts for the deductive verifier in /verif (govc). Only compiled with -tags verif.
+
+package state
+
+// ---- C07: what the "blocked" predicates of the managers may rely on ---------------------------------
+
+// Task.Get decodes a JSON value stored in the task into the object the caller passes; whether it
+// succeeds is a deterministic verdict of (task, key) (T5); it writes nothing else the predicates read.
+//@ ghost taskGetErr(ref, str) iface
+
+//@ func (*Task).Get
+//@   trusted
+//@   preserves Task.kind Task.id Task.status Task.waitedStatus Task.state Task.change Task.lanes Task.waitTasks Task.haltTasks E:Ref E:Str C:Str C:Ref
+//@   ensures result == taskGetErr(t, key)
